@@ -46,6 +46,15 @@ EXPLICIT = [
      "increase formal charge (h1) break bond(o1,h1) }", True),
     ("rule RING{ reactant r1{ C. labeled c1 C labeled c2 single bond to c1 C labeled c3 single bond to c2 "
      "C. labeled c4 single bond to c3 } form bond(c1,c4) decrease number of radical (c1) decrease number of radical (c4) }", True),
+    # bonds whose order the pattern leaves open: the order to change is the matched bond's own
+    ("rule UPANY{ reactant r1{ C. labeled c1 C. labeled c2 any bond to c1 } decrease number of radical (c1) "
+     "decrease number of radical (c2) increase bond order (c1,c2) }", True),
+    ("rule UPNR{ reactant r1{ C. labeled c1 C. labeled c2 nonring bond to c1 } decrease number of radical (c1) "
+     "decrease number of radical (c2) increase bond order (c1,c2) }", True),
+    ("rule DOWNSTRONG{ reactant r1{ C labeled c1 C labeled c2 strong bond to c1 } increase number of radical (c1) "
+     "increase number of radical (c2) decrease bond order (c1,c2) }", True),
+    ("rule DOWNANY{ reactant r1{ C labeled c1 O labeled o1 any bond to c1 } increase number of radical (c1) "
+     "increase number of radical (o1) decrease bond order (c1,o1) }", True),
     ("rule BAD1{ reactant r1{ C labeled c1 H labeled h1 single bond to c1 } break bond(c1,h1) }", False),
     ("rule BAD2{ reactant r1{ C labeled c1 H labeled h1 single bond to c1 } increase number of radical (c1) break bond(c1,h1) }", False),
     ("rule BAD3{ reactant r1{ C labeled c1 C labeled c2 double bond to c1 } decrease bond order (c1,c2) }", False),
@@ -54,7 +63,8 @@ EXPLICIT = [
 ]
 MOLS = ['C', 'CC', 'CCC', 'C=C', 'C#C', 'CC=C', 'CO', 'CCO', 'C=O', 'CC(C)C', 'C1CC1', 'C1CCC1', 'c1ccccc1',
         '[CH3]', 'C[CH2]', '[CH2][CH2]', '[CH2]C[CH2]', '[CH2]CC[CH2]', '[CH2]CC', 'O', 'OO', 'C[O]', 'C=CC=C',
-        'CC#C', 'CC(=O)O', 'C([Pt])C', 'CN', '[CH2]O', 'C1=CC1', 'CS']
+        'CC#C', 'CC(=O)O', 'C([Pt])C', 'CN', '[CH2]O', 'C1=CC1', 'CS',
+        '[CH]=[CH]', '[CH2][CH][CH]=[CH]', 'C=CC#C', 'O=CCO', '[CH2][CH]C1[CH][CH]1']
 
 
 def graph_of(products):
